@@ -12,7 +12,8 @@ __all__ = ["spoiler"]
 _BLOCK_SPOILER_START = re.compile(r"^ {0,3}! ?", re.M)
 _BLOCK_SPOILER_MATCH = re.compile(r"^( {0,3}![^\n]*\n)+$")
 
-INLINE_SPOILER_PATTERN = r">!\s*(?P<spoiler_text>.+?)\s*!<"
+# the text starts at a non-blank character: three overlapping runs of blanks made unclosed ">!   …" cubic
+INLINE_SPOILER_PATTERN = r">!\s*(?P<spoiler_text>\S.*?)\s*!<"
 
 
 def parse_block_spoiler(block: "BlockParser", m: Match[str], state: "BlockState") -> int:
